@@ -493,12 +493,17 @@ def k_bag_cli(run, case, rng, work):
     frames = [["map", "/world", "/vicon/world", "", "robot_1/odom", "odom_ü"][rng.integers(6)] for _ in topics]
     src = os.path.join(work, "in.bag")
     given = {}
+    sync = k >= 2 and bool(rng.random() < .4)  # synchronised to the reference topic (all topics stamped alike: nothing is dropped)
+    n_common, t_common = int(rng.integers(2, 30)), None
     w = Writer(src)
     w.open()
     try:
         for topic, fr in zip(topics, frames):
-            tr = make_traj(rng, int(rng.integers(1, 40)), ["epoch", "ordinary", "random17"][rng.integers(3)],
+            tr = make_traj(rng, n_common if sync else int(rng.integers(1, 40)), ["epoch", "ordinary", "random17"][rng.integers(3)],
                            "xyzq" if rng.random() < .5 else "se3", True)
+            if sync:
+                t_common = np.array(tr.timestamps) if t_common is None else t_common
+                tr.timestamps = t_common.copy()
             fi.write_bag_trajectory(w, tr, topic, frame_id=fr)
     finally:
         w.close()
@@ -515,8 +520,9 @@ def k_bag_cli(run, case, rng, work):
         r.close()
     out = os.path.join(work, "out")
     os.makedirs(out)
-    use_ref = k >= 2 and rng.random() < .5
-    argv = ["bag", src] + (topics[1:] + ["--ref", topics[0]] if use_ref else topics) + ["--save_as_bag", "--no_warnings"]
+    use_ref = sync or (k >= 2 and rng.random() < .5)
+    argv = ["bag", src] + (topics[1:] + ["--ref", topics[0]] if use_ref else topics) + ["--save_as_bag", "--no_warnings"] + \
+        (["--sync", "--t_max_diff", "0.001"] if sync else [])
     res = cli.run_cli("traj", argv, cwd=out)
     run.seen(case, core.digest([v[0]["p"] for v in given.values()], frames, use_ref), cls=["ros1 bag through evo_traj --save_as_bag",
                                                                                        "bag topics: %d" % k],
